@@ -496,3 +496,80 @@ def write(doc, rng, fmt=None):
         rev = Revision({n: Obj(v) for n, v in doc.objs.items()}, fmt=fmt, trailer=tr)
     data, info = write_file([rev])
     return data
+
+
+# ---- tiling patterns in the resources of a form (§8.7.3; Pattern::deep_clone) ------------------------
+
+# pieces of a pattern's content: each is a complete drawing step, so any concatenation is a valid content stream
+PATTERN_STEPS = [b"1 w", b"0 0 m 4 4 l S", b"0.5 g", b"0 0 2 2 re f", b"1 0 0 RG", b"2 w", b"0 0 0 1 k", b"1 1 m 3 1 l 3 3 l S",
+                 b"q 1 0 0 1 2 2 cm 0 0 1 1 re f Q", b"[2 1] 0 d", b"1 J", b"0 1 0 rg"]
+PATTERN_FORM_KINDS = ["direct", "indirect", "gs", "xobject", "font", "shared", "nested-form", "two-patterns", "stroke", "unused"]
+
+
+def pattern_content(rng, extra=()):
+    """a content stream of at least three operations that is not its own reverse (operation by operation)"""
+    while True:
+        steps = rng.sample(PATTERN_STEPS, rng.randrange(2, 5)) + list(extra)
+        rng.shuffle(steps)
+        data = rng.choice([b" ", b"\n"]).join(steps)
+        ops = [t[1] for t in G.tokens(data) if t[0] == "op"]
+        if len(ops) >= 3 and ops != ops[::-1]:
+            return data
+
+
+def make_tiling(doc, rng, res=None, extra=()):
+    """a PatternType 1 pattern (Table 75) as an indirect stream; `res`: its resource dictionary (held by reference)"""
+    doc.features.add("pattern:tiling")
+    d = {"Type": Name("Pattern"), "PatternType": 1, "PaintType": 1, "TilingType": rng.choice([1, 2, 3]),
+         "BBox": [0, 0, rng.randrange(4, 9), 5.5], "XStep": rng.choice([5, 6.25]), "YStep": rng.choice([5, 7]),
+         "Resources": doc.add(dict(res or {}))}
+    if rng.random() < 0.4:
+        d["Matrix"] = [1, 0, 0, 1, rng.randrange(5), 0.5]
+    return doc.add(enc_stream(rng, d, pattern_content(rng, extra), rng.choice(["none", "none", "flate", "hex", "a85", "lzw", "a85+flate"])))
+
+
+def plant_pattern_form(doc, rng, kind):
+    """a form whose own /Resources hold tiling patterns used by its operations (`/Pattern cs /P0 scn`), drawn by a page.
+    The form's resource dictionary is copied whole by the importer (typed: Resources -> Ref<Pattern>)."""
+    doc.features.add("form-pattern:" + kind)
+    pn = rng.choice(doc.pages)
+    page = doc.objs[pn]
+    pres, extra = {}, []
+    if kind == "gs":
+        pres = {"ExtGState": {"G0": rng.choice([make_gs(doc, rng), doc.add(make_gs(doc, rng))])}}
+        extra = [b"/G0 gs"]
+    elif kind == "xobject":
+        pres = {"XObject": {"X0": make_image(doc, rng) if rng.random() < 0.5 else make_form(doc, rng)}}
+        extra = [b"q /X0 Do Q"]
+    elif kind == "font":
+        pres = {"Font": {"F0": doc.add(make_font(doc, rng, rng.choice(["type1", "truetype"])))}}
+        extra = [b"BT /F0 4 Tf (p) Tj ET"]
+    elif kind == "unused":
+        # a resource of the pattern that its operations do not name (pruned or kept: not judged)
+        pres = {"ExtGState": {"G0": make_gs(doc, rng), "GUnused": make_gs(doc, rng)}}
+        extra = [b"/G0 gs"]
+    pat = make_tiling(doc, rng, pres, extra)
+    pats = {"P0": pat}
+    body = [b"/Pattern cs /P0 scn 0 0 10 10 re f"]
+    if kind == "stroke":
+        body = [b"/Pattern CS /P0 SCN 1 1 m 9 9 l S"]
+    if kind == "two-patterns":
+        pats["P1"] = make_tiling(doc, rng)
+        body.append(b"/Pattern CS /P1 SCN 0 0 m 9 9 l S")
+    fres = {"Pattern": pats}
+    if rng.random() < 0.5:
+        fres["ExtGState"] = {"GF": make_gs(doc, rng)}
+        body.insert(0, b"/GF gs")
+    if kind == "indirect" or (kind not in ("direct", "nested-form") and rng.random() < 0.3):
+        doc.features.add("form:indirect-resources")
+        fres = doc.add(fres)
+    form = make_form(doc, rng, fres, b" ".join(body))
+    if kind == "nested-form":
+        # the form with the pattern is drawn by another form
+        form = make_form(doc, rng, {"XObject": {"In": form}}, b"q /In Do Q")
+    add_resource(doc, page, "XObject", "XP", form, b"q /XP Do Q")
+    if kind == "shared":
+        # a second form (on any page) uses the same pattern object: one copy
+        page2 = doc.objs[rng.choice(doc.pages)]
+        form2 = make_form(doc, rng, {"Pattern": {"PS": pat}}, b"/Pattern cs /PS scn 0 0 3 3 re f")
+        add_resource(doc, page2, "XObject", "XP2", form2, b"q /XP2 Do Q")
